@@ -24,7 +24,7 @@ ASSUMPTIONS = [
 ]
 MUST = ["reconnect_after_failure", "reconnect_after_close", "reconnect_after_peerdrop", "reconnect_after_loop_change",
         "keepalive_reuse", "no_keepalive_closed_after_request", "final_close_zero", "max_one_checked",
-        "queued_caller_cancelled", "concurrent_close_and_requests", "setting_write_histories"]
+        "queued_caller_cancelled", "concurrent_close_and_requests", "setting_write_histories", "transparent_reconnect_checked"]
 EXHAUSTIVE = {"quick": True, "thorough": True}
 
 REQ_CLASSES = {
@@ -139,6 +139,15 @@ def check_run(sc, run, part: Part):
                     f"{ctx}: request against a healthy peer ended {healthy[0]['outcome'] if healthy else 'never ran'}"))
     else:
         acts = sc["actions"]
+        # ... and transparently: when nothing in the history can leave a stray answer behind (only answered requests, close(), loop changes
+        # and - TCP - idle connection drops), the healthy request needs exactly one transmission
+        clean = {"ok", "slow_ok", "frag2_ok", "rej", "CLOSE", "NEWLOOP"} | ({"PEERDROP"} if tr == "tcp" else set())
+        ntx = len([e for e in engine.events_of_call(run, healthy[0]["id"]) if e[1] == "tx"])
+        if all(a in clean for a in acts):
+            part.count("transparent_reconnect_checked")
+            if ntx != 1:
+                out.append((f"C10/{tr}/reconnect-not-transparent",
+                            f"{ctx}: the request against the healthy peer needed {ntx} transmissions (ended at +{round(healthy[0]['t1'] - healthy[0]['t0'], 6)})"))
         if acts:
             last = acts[-1]
             part.count({"CLOSE": "reconnect_after_close", "PEERDROP": "reconnect_after_peerdrop",
